@@ -37,6 +37,9 @@ ASSUMPTIONS = [
 SGR = re.compile("\x1b\\[[0-9;]*m")
 
 
+STYLE_TAGS = ("b", "u", "info", "comment", "question", "error", "c1", "c2")  # tags of the default style set
+
+
 def opt_names(o):
     """(preferred, alternative or None) as the user types them."""
     if o["short"] and o.get("prefer") != "long":
@@ -169,7 +172,10 @@ def check_page(sh, env, tree, app, path, W, ansi, case):
                 sh.violate("incomplete", case, "option %s%s is missing from the page (preferred name first)" % (s[0], " with alternative " + s[1] if s[1] else ""))
                 return text
         elif s not in text:
-            sh.violate("incomplete", case, "%s %r is missing from the page" % (kind, s))
+            key = None
+            if kind == "argument" and s.strip("<>") in STYLE_TAGS:
+                key = "argument-named-like-style-tag"
+            sh.violate("incomplete", case, "%s %r is missing from the page" % (kind, s), key)
             return text
     if path == ():
         for o in ("--help", "--quiet", "--verbose", "--version", "--ansi", "--no-ansi", "--no-interaction"):
@@ -280,7 +286,15 @@ def named_like_builtins_tree():
         return dict(name=name, aliases=list(aliases), kind=kind, desc="about " + name, help=None, subs=list(subs), opts=[],
                     args=[dict(name=name + "opt", kind="opt", multi=False, desc="an argument", default=None)] if not subs else [])
 
-    return [node("repo", [node("help"), node("list", aliases=["verbose"]), node("zhidden", kind="hidden")]), node("helper"), node("quiet", [node("help", [node("help")])])]
+    tree = [node("repo", [node("help"), node("list", aliases=["verbose"]), node("zhidden", kind="hidden")]), node("helper"), node("quiet", [node("help", [node("help")])])]
+    # arguments and options called like style tags of the formatter
+    tree.append(dict(name="styled", aliases=[], kind="plain", desc="names like style tags", help=None, subs=[],
+                     args=[dict(name="info", kind="req", multi=False, desc="an argument called info", default=None),
+                           dict(name="b", kind="opt", multi=False, desc="an argument called b", default=None),
+                           dict(name="error", kind="opt", multi=True, desc="arguments called error", default=None)],
+                     opts=[dict(long="comment", short="u", mode="req", desc="an option called comment", default=None, prefer="auto"),
+                           dict(long="question", short=None, mode="flag", desc="an option called question", default=None, prefer="auto")]))
+    return tree
 
 
 def plan(tier, seed):
